@@ -157,6 +157,9 @@ func subvec(args ...MalType) (MalType, error) {
 		from = args[1].(int)
 		to = args[2].(int)
 	}
+	if from < 0 || to > len(v.Val) || from > to {
+		return nil, fmt.Errorf("subvec index out of range (from %d to %d on a vector of %d elements)", from, to, len(v.Val))
+	}
 	return Vector{
 		Val: v.Val[from:to],
 	}, nil
